@@ -8,7 +8,7 @@ PYTHONPATH=$wt timeout 300 /venv/bin/python _out/demo.py > /tmp/demo_$pid.with 2
 git apply -R _out/patch.diff && { PYTHONPATH=$wt timeout 300 /venv/bin/python _out/demo.py > /tmp/demo_$pid.without 2>&1; echo "demo without change: exit $? ($(tail -1 /tmp/demo_$pid.without | cut -c1-60))"; git apply _out/patch.diff; }
 cd /verif
 out=$(VERIF_REPO=$wt VERIF_OUT=/tmp/seedout_$pid ./check $pid 2>&1); code=$?
-echo "$out" | grep -E "^  \[" | cut -c1-260 | head -4
+echo "$out" | grep -a -E "^  \[" | cut -c1-260 | head -4
 echo "$out" | tail -1
 echo "check exit $code"
 rm -f /tmp/demo_$pid.with /tmp/demo_$pid.without
